@@ -13,24 +13,24 @@ NOTE = ('Trusted: Kani/CBMC/CaDiCaL; fixed-capacity array models of hashbrown/in
 STEP = ('one symbolic API step per harness from an assigned, script-reachable pre-state (ids, limits, timer values, reason codes, flags symbolic at full width), '
         'post-conditions written over the post-state and the summarised event list, shared monitor for close ordering / timer consistency; inductive over histories inside the stated pre-state families')
 CLAIMS = {
-    'C02': ('5.C02', 'per packet kind and shape: builder -> size()/Remaining Length/contiguous/vectored serialisation -> parse, all compared byte for byte and by equality, for all field values of the shape (ids at full width, every reason code, flags, symbolic string/payload bytes); primitives (VBI, strings) at full width; property section on both sides of the 127/128 boundary. Bounded by the listed shapes (<=1 property, 1-3 byte strings, 2-byte payloads).'),
-    'C03': ('5.C03', 'same harnesses as C02 but the oracle is an independently written reference encoding per shape (bytes spelled out from the OASIS tables) and exhaustive u8 tables for property identifiers, every reason/return-code enum and QoS; accessors of parsed reference encodings compared with the abstract field values'),
-    'C04': ('5.C04', 'every parser on all byte strings up to N (N=3..6) and on every prefix of structured symbolic bodies; on acceptance: consumed <= given, size() == serialisation length, re-parse equal, builder rules (non-zero id, QoS<=2); Rust panics / out-of-bounds are failures by construction'),
-    'C05': ('5.C05', 'receive-step harnesses with boundary values (packet id 0, Topic Alias Maximum 0, keep-alive 65535, symbolic fixed-header byte dispatch), framing totality from C09, id-management totality; every panic/overflow/unwrap reachable inside the bounds is a failure. ' + STEP),
-    'C06': ('5.C06', STEP + '. Steps: send QoS1/2 PUBLISH in every status x persistence x offline flag, PUBREL in every status, PUBACK/PUBREC/PUBCOMP match / wrong kind / wrong id, erase, CONNACK resume (session present or not), server CONNACK resume, send_stored under a size limit, close.'),
-    'C07': ('5.C07', STEP + '. Steps: inbound QoS2 PUBLISH against a handled set (new / duplicate / id 0, DUP, auto response on/off), PUBREL, application PUBREC with every reason code, close (persistent or not), clean-start CONNECT on a reused object, export/restore of the handled set.'),
-    'C08': ('5.C08', 'PacketIdManager inductive step over an arbitrary valid allocator state at full u16 width (acquire / register / release, universal probe) + totality of the public id calls for every value incl. 0 + release monitor on the step harnesses of C06/C12/C14 (released exactly once, exactly when an in-use id becomes free; refusal paths; close)'),
-    'C09': ('5.C09', 'PacketBuilder::feed decided for all 1-4 byte Remaining Length encodings, over-long lengths split at every point, every partition into <=3 chunks (+ byte-at-a-time) of six concrete-shape streams with symbolic content against whole-frame feeding, and recv() one-packet-per-call / framing-error steps'),
-    'C10': ('5.C10', STEP + '. notify_closed from any status with symbolic leftovers (limits, alias tables, pending ids, timers, half-received frame); first step of the next connection (client CONNECT clean start vs. a fresh object, two objects compared field by field; server CONNECT after a connection with another keep-alive).'),
-    'C11': ('5.C11', 'public send() per (role, packet kind) with connection version, status, need_store and offline_publish symbolic (36 cells per harness, 93 harnesses = full matrix in the thorough tier; quick = const table + 5 harnesses) against the MQTT send rules; refused sends must leave state unchanged; compile-time Sendable table evaluated for 29 types x 3 roles'),
-    'C12': ('5.C12', STEP + '. Counter arithmetic at full u16 width: send at/below the limit, PUBACK/PUBREC(ok, error)/PUBCOMP match and mismatch, erase, retransmission on resume (server CONNACK), application PUBREC, inbound PUBLISH at the announced maximum.'),
-    'C13': ('5.C13', 'TopicAliasSend/Recv kernels against an independent receiver/LRU model (histories of 3 operations, max<=3) + ' + STEP + '. Steps: manual alias with topic (re-binding) compared with a receiver model, empty topic + alias, automatic replacement, automatic mapping, receive side bound/unbound/out of range, close.'),
-    'C14': ('5.C14', 'size kernel for all Remaining Lengths + ' + STEP + '. Steps with the limit symbolic around the concrete packet size: PUBACK, QoS1 PUBLISH, auto-mapped PUBLISH, send_stored (PUBLISH and PUBREL), inbound frame.'),
-    'C15': ('5.C15', STEP + '. Timer monitor on every step (cancel only if armed, flags == fold of events, nothing armed when disconnected, exact intervals by priority) for all keep-alive / override / Server Keep Alive / timeout values: PINGREQ send, DISCONNECT, the three expiries, PINGRESP, close, server CONNECT (after another keep-alive), PUBREL while disconnected.'),
-    'C16': ('5.C16', STEP + '. restore_packets (v3.1.1 / v5.0: PUBLISH QoS1, QoS2, PUBREL; duplicate ids) then wait sets / in-use ids / order / re-acquire, handled-set export->restore equality, CONNACK resume from a restored store; the crash-point quantifier is discharged by state equality (exportable state = store + handled set).'),
-    'C17': ('5.C17', 'can_receive for all u8 x version x role against the MQTT table + process_recv_packet with a symbolic fixed-header byte per role/version (rejected => only a protocol error and state untouched; accepted => the handler of that type ran) + undetermined-version first packet for all protocol levels. ' + STEP),
+    'C02': ('5.C02 / 10.5', 'per packet kind and shape: builder -> size() / Remaining Length / contiguous / vectored serialisation -> parse, compared byte for byte and by equality for all field values of the shape (ids at full u16 and u32 width, every return/reason code, flags, symbolic string/payload bytes); variable byte integers for all u32, strings of 0-3 symbolic bytes. Decided for the v3.1.1 acknowledgements, CONNACK, PUBLISH (3 QoS shapes), PING/DISCONNECT and the v5.0 CONNACK/DISCONNECT/AUTH without properties; the other v5.0 round trips are written but outside the claim (not decidable within 28 GB here).'),
+    'C03': ('5.C03 / 10.5', 'the C02 harnesses compare against an independently written reference encoding per shape (bytes spelled out from the OASIS tables); exhaustive u8 tables for property identifiers, every reason/return-code enum and QoS; every fixed-width property kind: identifier byte + big-endian value for all values'),
+    'C04': ('5.C04 / 10.5', 'parsers on all byte strings up to N (v3.1.1 acknowledgements N=4, CONNACK 3, strings / binaries 6, variable byte integers 5) and on structured symbolic bodies (v3.1.1 PUBLISH with all 16 flag nibbles, every prefix of a CONNECT body, non-minimal Property Length); on acceptance: consumed <= given, size() == serialisation length, re-parse equal, non-zero identifier, QoS <= 2; Rust panics / out-of-bounds are failures by construction. v5.0 parsers beyond the listed shapes are outside the claim.'),
+    'C05': ('5.C05 / 10.5', 'receive steps with boundary values (CONNECT keep-alive at full width incl. 65535 on v3.1.1 and v5.0 servers, Topic Alias Maximum 0, QoS2 PUBLISH id 0 / duplicate), over-long Remaining Length at every cut position, recv() framing error, totality of the id calls for every value, every prefix of a CONNECT body; thorough: dispatch with a symbolic fixed-header byte (v3.1.1 client and server). Every panic / overflow / unwrap reachable inside the bounds is a failure. ' + STEP),
+    'C06': ('5.C06 / 10.5', STEP + '. Quick: QoS1 PUBLISH sent on a persistent session (stored with DUP, id held, unregistered id refused), PUBACK match / wrong kind / wrong id / id 0 against a stored packet. Thorough: every status x persistence x offline flag for PUBLISH and PUBREL, v5.0 PUBACK / PUBREC (every reason code) / PUBCOMP, close.'),
+    'C07': ('5.C07 / 10.5', STEP + '. Quick: inbound QoS2 PUBLISH new vs. duplicate (DUP symbolic), application PUBREC with every reason code (only errors forget the id), export/restore of the handled set. Thorough: auto response on/off incl. id 0, PUBREL (both versions, 34 min), close, clean-start CONNECT on a reused object.'),
+    'C08': ('5.C08 / 10.5', 'PacketIdManager inductive step over an arbitrary valid allocator state at full u16 width (acquire / register / release, universal probe) + totality of release/register/acquire for every value incl. 0 and double release + close (pending subscribe id, in-flight publish id, persistent or not) + PUBACK match/mismatch release accounting; thorough: SUBACK/UNSUBACK with an id the application already released, PUBCOMP, v5.0 PUBACK'),
+    'C09': ('5.C09 / 10.5', 'PacketBuilder::feed decided for all 1-4 byte Remaining Length encodings (header phase), over-long lengths at every cut position (3 concrete length patterns), every partition into <=3 chunks (+ byte-at-a-time) of concrete-shape streams with symbolic content against whole-frame feeding, and recv() handling exactly one packet per call'),
+    'C10': ('5.C10 / 10.5', STEP + '. Quick: notify_closed from any status with symbolic leftovers (limits, alias tables, pending ids, timers, half-received frame); server CONNECT after a connection with another keep-alive. Thorough: clean-start CONNECT on a reused client compared field by field with a fresh object (two objects), v5.0 server CONNECT.'),
+    'C11': ('5.C11 / 10.5', 'compile-time Sendable table for 29 types x 3 roles against the run-time role rule; public send() per (role, packet kind) with connection version (3), status (3), need_store and offline_publish symbolic = 36 cells per harness against the MQTT send rules, refused sends must leave the state (incl. inbound exchanges) unchanged. Quick = const table + 2 harnesses; thorough = the harnesses listed in DESIGN 10.5.'),
+    'C12': ('5.C12 / 10.5', 'vacancy arithmetic for all maxima and counters (saturating, never wraps) + ' + STEP + '. Quick: application PUBREC frees the inbound slot exactly for error codes. Thorough: PUBACK / PUBCOMP match and mismatch with Receive Maximum M at full width. Retransmission counting on resume and the inbound limit are written but outside the claim (did not fit).'),
+    'C13': ('5.C13 / 10.5', 'receive-side alias table kernel (all maxima / aliases), sender table clear(), automatic mapping under a size limit (new mapping sends topic + alias), tables dropped on close, server-side table only for Topic Alias Maximum > 0 (thorough). The sender-side manual / replacement steps against a receiver model are written but did not fit (outside the claim). ' + STEP),
+    'C14': ('5.C14 / 10.5', 'size kernel for all Remaining Lengths + ' + STEP + '. PUBACK under every limit, automatically mapped PUBLISH under limits around its size (known finding KF1), inbound frame around the local limit (DISCONNECT 0x95, close, not delivered); thorough: QoS1 PUBLISH refusal releases its id, send_stored drops oversize PUBLISH and PUBREL.'),
+    'C15': ('5.C15 / 10.5', STEP + '. Timer monitor on every step (cancel only if armed, flags == fold of events, nothing armed when disconnected, exact intervals by priority) for all keep-alive / override / Server Keep Alive / timeout values: PINGREQ send (v5.0), DISCONNECT, server receive-timer expiry (both versions), PINGRESP, close, server CONNECT (after another keep-alive); thorough: the other expiries, v3.1.1 PINGREQ, PUBREL while not connected.'),
+    'C16': ('5.C16 / 10.5', 'handled-set export -> restore equality (quick); thorough: restore_packets of [PUBLISH QoS1|2, PUBREL] (v3.1.1 / v5.0): order, wait sets, in-use ids, re-registration refused. The crash-point quantifier is discharged by state equality (exportable state = store + handled set); resume behaviour from a restored store is decided under C06 only for v3.1.1 PUBACK.'),
+    'C17': ('5.C17 / 10.5', 'can_receive for all u8 x version x role against the MQTT table; CONNACK on an established connection is a protocol error and leaves the session untouched; thorough: process_recv_packet with a symbolic fixed-header byte for a v3.1.1 client and server (rejected => only a protocol error, state untouched; accepted => the handler of that type ran). v5.0 / undetermined-version dispatch did not fit (outside the claim).'),
     'C18': ('5.C18', 'each private validate_*_properties function decided against the specification table for property kind symbolic over all identifiers x occurrence count 1-2 x symbolic values, and every fixed-width / variable-byte property constructor and parser for all values; finite table fully covered except count>2'),
-    'C19': ('5.C19', 'close-ordering monitor (no send after a close request in one list) on every step harness; own steps: DISCONNECT v3.1.1/v5.0, the three timer expiries, protocol-error paths of v3.1.1 and v5.0, Receive-Maximum / Packet-too-large / Topic-Alias-invalid automatic DISCONNECTs, recv() framing error. ' + STEP),
+    'C19': ('5.C19 / 10.5', 'close-ordering monitor (no send after a close request in one list) on every step harness; own steps: DISCONNECT v3.1.1 and v5.0 (every reason code), keep-alive expiries, recv() framing error, oversize inbound frame (DISCONNECT, close, error in that order). ' + STEP),
     'C20': ('5.C20', 'inductive step of the allocator (arbitrary range, arbitrary valid pool of <=3 (thorough: 4) runs, one symbolic operation, universal probe) at full u16/u32 width + base case + u8 histories; base+step cover histories of any length whose pool stays within the run bound'),
 }
 NA = {
